@@ -216,58 +216,79 @@ def run_property(spec, tier, seed, replay=None):
     else:
         if replay:
             return do_replay(ctx, spec, replay)
-        for suite in spec["suites"]:
+        def run_suites(escalated):
+            nonlocal property_failures
+            for suite in spec["suites"]:
+                if escalated and suite.get("no_escalation"):
+                    continue
+                try:
+                    res = correspond(ctx, spec, suite, stats if not escalated else {})
+                except Exception as e:
+                    if not escalated:
+                        tie_broken.append("suite %s could not run: %r" % (suite["name"], e))
+                    continue
+                if not escalated:
+                    totals["evaluations"] += res["cases"]
+                    totals["nontrivial"] |= res["nontrivial"]
+                    totals["samples"] += res["samples"]
+                else:
+                    totals["escalated_evaluations"] = totals.get("escalated_evaluations", 0) + res["cases"]
+                ctx.say("suite %s%s: %d cases, %d disagreements, %d monitor rejections, %d panics" % (
+                    suite["name"], " (escalated search)" if escalated else "", res["cases"], len(res["disagreements"]),
+                    len(res["rejects"]), len(res["panics"])))
+                kp = suite.get("keep_prefix", 2)
+                if res.get("race"):
+                    property_failures += 1
+                    report_finding(ctx, "%s:%s:data-race" % (pid, suite["name"]), "Go race detector reports a data race",
+                                   {"kind": "input", "suite": suite["name"], "race_report": res["race"],
+                                    "how_to_replay": "./check %s --tier thorough (race-enabled harness)" % pid})
+                # property failures observed on the implementation (monitor rejections), grouped by finding key
+                seen_keys = {}
+                for r in res["rejects"]:
+                    key = spec["finding_key"](suite, r["case"]["ops"], r["line"], r["msg"])
+                    seen_keys.setdefault(key, []).append(r)
+                for key, rs in seen_keys.items():
+                    r = min(rs, key=lambda r: len(r["case"]["ops"]))
+                    msg0 = r["msg"].split()[1] if len(r["msg"].split()) > 1 else ""
+                    small = shrink_case(ctx, suite, r["case"]["ops"],
+                                        lambda impl, model, mon: any(l.startswith("reject") and (l.split()[1:2] == [msg0]) for l in mon), kp)
+                    impl, model, mon = exec_case(ctx, suite, small, "final")
+                    fr = first_reject(mon)
+                    property_failures += 1
+                    report_finding(ctx, key, "monitor rejects implementation trace: " + (fr[1] if fr else r["msg"]),
+                                   {"kind": "input", "suite": suite["name"], "ops": small, "impl": impl, "model": model,
+                                    "monitor": mon, "minimised": True, "occurrences": len(rs),
+                                    "how_to_replay": "./check %s --replay <this file>" % pid})
+                for r in res["panics"]:
+                    if not spec.get("panic_is_violation", True):
+                        continue
+                    key = "%s:%s:panic" % (pid, suite["name"])
+                    if key in seen_keys:
+                        continue
+                    seen_keys[key] = 1
+                    small = shrink_case(ctx, suite, r["case"]["ops"], lambda impl, model, mon: any(l.startswith("panic ") for l in impl), kp)
+                    impl, model, mon = exec_case(ctx, suite, small, "final")
+                    property_failures += 1
+                    report_finding(ctx, key, "implementation panics", {"kind": "input", "suite": suite["name"], "ops": small, "impl": impl, "minimised": True})
+                if res["disagreements"] and not escalated:
+                    d = min(res["disagreements"], key=lambda d: len(d["case"]["ops"]))
+                    differs = lambda impl, model, mon: (lambda v: v[0] != v[1])(views(suite, impl, model))
+                    small = shrink_case(ctx, suite, d["case"]["ops"], differs, kp)
+                    impl, model, mon = exec_case(ctx, suite, small, "final")
+                    tie_broken.append({"suite": suite["name"], "ops": small, "impl": impl, "model": model, "monitor": mon,
+                                       "count": len(res["disagreements"])})
+
+        run_suites(False)
+        # A proof obligation or the correspondence broke but the quick generators found no input on which the
+        # property fails: search harder (the thorough generators, incl. the race detector) before giving up.
+        if (failed or tie_broken) and not any(not v["nofail"] for v in ctx.violations) and ctx.tier == "quick" \
+                and spec.get("escalate", True) and not os.environ.get("VERIF_NO_ESCALATION"):
+            ctx.say("proof/correspondence broken and no failing input yet: escalating the search to the thorough generators")
+            ctx.tier = "thorough"
             try:
-                res = correspond(ctx, spec, suite, stats)
-            except Exception as e:
-                tie_broken.append("suite %s could not run: %r" % (suite["name"], e))
-                continue
-            totals["evaluations"] += res["cases"]
-            totals["nontrivial"] |= res["nontrivial"]
-            totals["samples"] += res["samples"]
-            ctx.say("suite %s: %d cases, %d disagreements, %d monitor rejections, %d panics" % (
-                suite["name"], res["cases"], len(res["disagreements"]), len(res["rejects"]), len(res["panics"])))
-            kp = suite.get("keep_prefix", 2)
-            if res.get("race"):
-                property_failures += 1
-                report_finding(ctx, "%s:%s:data-race" % (pid, suite["name"]), "Go race detector reports a data race",
-                               {"kind": "input", "suite": suite["name"], "race_report": res["race"],
-                                "how_to_replay": "./check %s --tier thorough (race-enabled harness)" % pid})
-            # property failures observed on the implementation (monitor rejections), grouped by finding key
-            seen_keys = {}
-            for r in res["rejects"]:
-                key = spec["finding_key"](suite, r["case"]["ops"], r["line"], r["msg"])
-                seen_keys.setdefault(key, []).append(r)
-            for key, rs in seen_keys.items():
-                r = min(rs, key=lambda r: len(r["case"]["ops"]))
-                msg0 = r["msg"].split()[1] if len(r["msg"].split()) > 1 else ""
-                small = shrink_case(ctx, suite, r["case"]["ops"],
-                                    lambda impl, model, mon: any(l.startswith("reject") and (l.split()[1:2] == [msg0]) for l in mon), kp)
-                impl, model, mon = exec_case(ctx, suite, small, "final")
-                fr = first_reject(mon)
-                property_failures += 1
-                report_finding(ctx, key, "monitor rejects implementation trace: " + (fr[1] if fr else r["msg"]),
-                               {"kind": "input", "suite": suite["name"], "ops": small, "impl": impl, "model": model,
-                                "monitor": mon, "minimised": True, "occurrences": len(rs),
-                                "how_to_replay": "./check %s --replay <this file>" % pid})
-            for r in res["panics"]:
-                if not spec.get("panic_is_violation", True):
-                    continue
-                key = "%s:%s:panic" % (pid, suite["name"])
-                if key in seen_keys:
-                    continue
-                seen_keys[key] = 1
-                small = shrink_case(ctx, suite, r["case"]["ops"], lambda impl, model, mon: any(l.startswith("panic ") for l in impl), kp)
-                impl, model, mon = exec_case(ctx, suite, small, "final")
-                property_failures += 1
-                report_finding(ctx, key, "implementation panics", {"kind": "input", "suite": suite["name"], "ops": small, "impl": impl, "minimised": True})
-            if res["disagreements"]:
-                d = min(res["disagreements"], key=lambda d: len(d["case"]["ops"]))
-                differs = lambda impl, model, mon: (lambda v: v[0] != v[1])(views(suite, impl, model))
-                small = shrink_case(ctx, suite, d["case"]["ops"], differs, kp)
-                impl, model, mon = exec_case(ctx, suite, small, "final")
-                tie_broken.append({"suite": suite["name"], "ops": small, "impl": impl, "model": model, "monitor": mon,
-                                   "count": len(res["disagreements"])})
+                run_suites(True)
+            finally:
+                ctx.tier = "quick"
     # decide about broken proof / correspondence without an unlisted failing input
     new_input_violation = any(not v["nofail"] for v in ctx.violations)
     if (failed or tie_broken) and not new_input_violation:
